@@ -880,7 +880,10 @@ func c05Cause(c *c05Case, md *c05Model, in *c05Info, clause, class string, perMo
 				vis++
 			}
 		}
-		if d.has && !d.trashed && vis >= 2 {
+		// B4: the shared devices whose replica stays are the ones that can be
+		// counted twice as protection; B3: every shared device with a replica
+		// in the class can be counted twice by the under-replication guard
+		if d.has && vis >= 2 && ((clause == "B4" && !d.trashed) || (clause == "B3" && d.cls[class])) {
 			keptShared[d.key] = true
 		}
 		if d.trashed {
@@ -892,6 +895,10 @@ func c05Cause(c *c05Case, md *c05Model, in *c05Info, clause, class string, perMo
 		return r2
 	}
 	if shared && !c05StillFails(c05CollapseShared(c, keptShared), clause, class) {
+		return r1
+	}
+	if shared && !alias && !c05StillFails(c05CollapseShared(c, nil), clause, class) {
+		// (with one shared device reduced, another one took over its role)
 		return r1
 	}
 	if alias && !c05StillFails(c05CollapseShared(c, trashedDevs), clause, class) {
@@ -1557,8 +1564,14 @@ func TestVerifC05(t *testing.T) {
 
 	shrunk := map[string]int{}
 	seen := map[string]int{}
-	var sawTrash, sawPull, sawLost, sawShared, sawROReplica, sawUnderrep int
+	var sawTrash, sawPull, sawLost, sawShared, sawROReplica, sawUnderrep, cleanupDiffers int
 	defer func() {
+		if cleanupDiffers > 0 {
+			// not a clause of the property, but the oracle's view of which mounts
+			// the balancer looks at (and so which replicas it was told about) no
+			// longer applies: nothing can be concluded from the silent cases
+			run.Inconclusive(fmt.Sprintf("cleanupMounts kept another set of mounts than \"all but the read-only views of a device that is mounted read-write elsewhere\" in %d cases", cleanupDiffers))
+		}
 		if run.Replaying() {
 			return
 		}
@@ -1624,6 +1637,7 @@ func TestVerifC05(t *testing.T) {
 		}
 		if in.cleanupDiffers {
 			run.Count("cleanup_differs_from_model", 1)
+			cleanupDiffers++
 		}
 		run.Count("pulls_to_second_mount_of_same_device", in.pullSameDevice)
 		run.Count("trash_requests_for_mount_without_replica", in.trashNoReplica)
